@@ -87,7 +87,7 @@ LEVEL_TEXT = {
             "callable itself is observed: the harness compares the set of labels whose tracked callable is still alive after every call.", '6/C04'),
     'C05': ("Machine-checked on the model: an unblocked deferred connection contributes exactly one queued invocation and no call to an emission; a pass runs "
             "the queue once, in order, with the stored values, and leaves it empty; a second pass runs nothing; disconnect cancels exactly that connection's "
-            "entries; a nested evaluate is a no-op; with arbitrary re-entrant slots no evaluator is left evaluating. Tie: generated histories with slots that "
+            "entries; a nested evaluate is a no-op; with ARBITRARY re-entrant slots (emitting deferred signals of the same evaluator, disconnecting, destroying signals, nested passes) a pass that returns runs the queue as it stood at its start and everything queued meanwhile, each element once, in queue order, and ends with the queue empty; no evaluator is left evaluating. Tie: generated histories with slots that "
             "emit / disconnect / evaluate inside passes, arguments destroyed right after emit (ASan).", '6/C05'),
     'C15': ("Machine-checked on the model: block returns the previous setting and flips exactly one flag; blocked connections contribute nothing to an "
             "emission; inactive handles are rejected with out_of_range and no change; for EVERY well-nested sequence of scoped blockers (on active or inactive "
